@@ -143,10 +143,14 @@ type World struct {
 
 	ScanLeaks bool
 	Emitted   int // byte strings scanned for leaks
+	LogLines  int
 
 	Viols []Violation
 
 	kmsRequests  [][]byte
+	patIndex        map[uint32][]leakPattern
+	indexedSecrets  int
+	indexedPayloads int
 	sensPayloads [][]byte
 
 	prng    *simrt.Rand
